@@ -84,6 +84,30 @@ static void log_event(const char *phase) {
     if (write(events_fd, line, n) != n) abort();
 }
 
+/* The process attributes a test finds when it starts (what it inherits from the runner): signal dispositions, blocked
+ * signals, number of open descriptors. One line per executed test in <outdir>/fingerprints. */
+#include <dirent.h>
+static int fingerprints_fd = -1;
+static void log_fingerprint(void) {
+    static char path[70000], line[71000];
+    char sigs[40]; int n = 0;
+    for (int sig = 1; sig < 32; sig++) {
+        struct sigaction old;
+        if (sig == SIGKILL || sig == SIGSTOP || sigaction(sig, NULL, &old) != 0) { sigs[n++] = '-'; continue; }
+        sigs[n++] = old.sa_handler == SIG_DFL ? 'D' : old.sa_handler == SIG_IGN ? 'I' : 'H';
+    }
+    sigs[n] = 0;
+    sigset_t blocked; sigprocmask(SIG_BLOCK, NULL, &blocked);
+    unsigned long mask = 0;
+    for (int sig = 1; sig < 32; sig++) if (sigismember(&blocked, sig)) mask |= 1ul << sig;
+    int fds = 0;
+    DIR *d = opendir("/proc/self/fd");
+    if (d) { while (readdir(d)) fds++; closedir(d); }
+    current_path(path);
+    int len = snprintf(line, sizeof line, "%s sig:%s blocked:%lx fds:%d\n", path, sigs, mask, fds);
+    if (fingerprints_fd >= 0 && write(fingerprints_fd, line, len) != len) abort();
+}
+
 static TestC *current(void) {
     static char path[70000];
     current_path(path);
@@ -160,7 +184,7 @@ static void do_acts(ActC *acts, int n) {
 }
 
 /* every declaration of one test (context setup, body, context teardown) names its own mock function */
-static void scripted_body(void) { TestC *t = current(); log_event("body"); if (!t || !t->ctx) decl_counter = 0; if (t) { running_file = t->spec.filename; do_acts(t->body, t->nbody); } }
+static void scripted_body(void) { TestC *t = current(); log_event("body"); log_fingerprint(); if (!t || !t->ctx) decl_counter = 0; if (t) { running_file = t->spec.filename; do_acts(t->body, t->nbody); } }
 static void ctx_setup(void) { TestC *t = current(); log_event("ctxSetup"); decl_counter = 0; if (t) do_acts(t->setup, t->nsetup); }
 static void ctx_teardown(void) { TestC *t = current(); log_event("ctxTeardown"); if (t) do_acts(t->teardown, t->nteardown); }
 /* A suite's fixtures run in the reporting process around its sub-suites (breadcrumb = the suite) and in the
@@ -295,6 +319,7 @@ int main(int argc, char **argv) {
 
     if (chdir(outdir) != 0) { perror(outdir); return 2; }
     events_fd = open("events", O_WRONLY | O_CREAT | O_APPEND, 0644);
+    fingerprints_fd = open("fingerprints", O_WRONLY | O_CREAT | O_APPEND, 0644);
 
     TestReporter *reporter = NULL;
     TextReporterOptions topt;
